@@ -6,8 +6,56 @@ DRIVER = "c11_driver"
 HARNESS = "c11"
 COUNTS = {"quick": 1500, "thorough": 60000}
 DESIGN_REF = "DESIGN.md §4 C11"
-TECHNIQUE = "placeholder"
-LEVEL_TEXT = "placeholder"
-LEVEL_NOTE = "placeholder"
-TRUSTED = []
-RULE = "placeholder"
+TECHNIQUE = ("Coq proof of an ownership invariant over heap histories (every backing array / Go map / struct is owned by one "
+             "unfinished assembler or frozen) + differential run of the extracted heap model against node/basicnode, "
+             "datamodel.Copy, traversal.FocusedTransform, selector subset matches, dag-cbor/dag-json decoders")
+LEVEL_TEXT = ("Theorems in coq/Props/C11.v about the executable heap model coq/Heap/GoMem.v + BasicHeap.v (node/basicnode builders, "
+              "assemblers and nodes as heap objects with Go's slice/append/map/pointer/reader semantics, incl. the `*na.w = *v2` "
+              "shortcut sharing backing arrays, value assemblers storing child pointers, plainBytes aliasing the caller's slice, "
+              "streamBytes sharing a reader position): for EVERY Legal history of API calls (any length, any number of builders, "
+              "any interleaving, any append growth policy), every node handed out and every accessor, the read returns the same "
+              "before and after any continuation of the history (C11_stable), and twice in a row (C11_repeat) — for all accessors "
+              "when streamBytes reads are position-independent (repaired tree), and for all accessors except AsBytes/AsLargeBytes "
+              "of a streamBytes node on the pinned tree (C11_stable_partial), where the full statement is refuted "
+              "(C11_refuted_stream, C11_full_refuted_pinned). Proof: an ownership invariant preserved by every single write of "
+              "every operation (so also across panics). The model is tied to /repo by running the extracted model on the "
+              "histories (<= 40 calls, several builders sharing structure, misuse included) a Go harness ran against the real "
+              "library, re-dumping every node twice after every step.")
+LEVEL_NOTE = ("Modelled, not verified: the Go code of node/basicnode, matcher.go Slice, datamodel.Copy, FocusedTransform (as API clients "
+              "in coq/Heap/Script.v), bytes.Reader / io.SectionReader / readerat (net effect of io.ReadAll). Nodes of other "
+              "implementations are modelled as immutable values (RForeign). The theorems are about API-call histories; that the "
+              "script-level clients (copy, transform, decoders, dump) only perform API calls is by construction of Script.v "
+              "(every heap access goes through pstep), not a separate theorem. Uint nodes, links and huge size hints are not exercised.")
+TRUSTED = ["node/basicnode, traversal/selector/matcher.go, datamodel.Copy, traversal.FocusedTransform: hand-modelled in coq/Heap/*.v; tied by correspondence only",
+           "Go runtime semantics of slices (in-place append when len < cap), maps, pointers, bytes.Reader, io.SectionReader, io.ReadAll as modelled in coq/Heap/GoMem.v; the append growth policy is a parameter the theorems quantify over"]
+RULE = ("histories from a stateful generator that tracks the builder contract (mostly Legal, ~1 in 6 with one misuse or caller write), "
+        "over builders of every basicnode prototype, nested assemblers, AssignNode of earlier nodes (shortcut and copy paths), Reset and "
+        "reuse, Copy, lookups, subset matches, FocusedTransform, dag-cbor encode, walks, nodes from dag-cbor/dag-json decoders and a "
+        "foreign node implementation; plus a fixed corpus of witnesses; distinct = distinct script; non-trivial = more than 3 calls")
+EXPLANATION = ("verdict per case: on a Legal history any node register whose re-dump differs from its first dump, or whose two dumps taken "
+               "at one step differ, is a failure; class streambytes_second_read when the node contains a streamBytes and only bytes "
+               "tokens differ, else node_changed / read_not_repeatable. Histories after a misuse step are vacuous for the oracle but "
+               "still compared with the model.")
+
+
+def classify(fs):
+    if fs[1] == "probe":
+        return "probe"
+    ops = fs[1].split(" ")
+    kinds = set(o.split(":")[0] for o in ops)
+    tags = []
+    if "cw" in kinds:
+        tags.append("callerwrite")
+    if "an" in kinds:
+        tags.append("assignnode")
+    if "tf" in kinds:
+        tags.append("transform")
+    if "mt" in kinds:
+        tags.append("subset")
+    if "rs" in kinds:
+        tags.append("reset")
+    return "+".join(tags) or "plain"
+
+
+def nontrivial(fs):
+    return len(fs[1].split(" ")) > 3
